@@ -469,11 +469,16 @@ auto fma_excl(T x, T y, T z) -> char const*
     return res(fused(x, y, z)) != res(u) ? "cmath.fma.ct_unfused" : kNoTag;
 }
 template <typename T>
-constexpr auto fmod_excl(T x, T y) -> char const*
+auto fmod_excl(T x, T y) -> char const*
 {
+    // etl::fmod is x - trunc(x / y) * y: the quotient (or its product with y) overflows -> never a constant expression;
+    // a finite quotient that does not fit long long -> not a constant expression before C13-42
     if (!is_fin(x) || !is_fin(y) || y == 0) { return kNoTag; }
-    if (mag(x) > std::numeric_limits<T>::max() * (mag(y) < 1 ? mag(y) : T(1))) { return "cmath.fmod.ct_quotient_overflow"; }
-    return !fits_ll(x / y) ? "cmath.round.ct_huge" : kNoTag;
+    T volatile q = x / y;
+    if (!is_fin(static_cast<T>(q))) { return "cmath.fmod.ct_quotient_overflow"; }
+    T volatile p = __builtin_trunc(static_cast<double>(q)) * static_cast<double>(y);
+    if (!is_fin(static_cast<T>(p))) { return "cmath.fmod.ct_quotient_overflow"; }
+    return !fits_ll(static_cast<T>(q)) ? "cmath.round.ct_huge" : kNoTag;
 }
     #define C13_CMATH(S, T)                                                                                                                      \
         C13_FN1(floor_##S, "floor." #S, "cmath", T, true, C13_HUGE(x), etl::floor(x))                                                            \
@@ -669,7 +674,408 @@ C13_FN2(traits_find, "traits_find", "cstring", Str, Ch, true, kNoTag, [&] { CStr
 
 // ================================================================== scenario digests
 #if defined(C13_PART_SCEN)
-// C13_SCENARIOS
+// A scenario is a constexpr function that derives a fixed-length, valid-by-construction operation history from a 64-bit
+// seed, runs it on the etl type and folds every observable (sizes, elements, return values, error codes) into a hash.
+// The obligation is: hash computed by the compiler == hash computed at run time from the laundered seed, and the history
+// is a constant expression.  Unspecified values (tails after unique/remove/partition, order inside nth_element's
+// halves) are never hashed.
+namespace scen {
+struct Rng {
+    u64 s;
+    constexpr auto next() -> u64
+    {
+        u64 z = (s += 0x9E3779B97F4A7C15ULL);
+        z     = (z ^ (z >> 30U)) * 0xBF58476D1CE4E5B9ULL;
+        z     = (z ^ (z >> 27U)) * 0x94D049BB133111EBULL;
+        return z ^ (z >> 31U);
+    }
+    constexpr auto below(u64 n) -> u64 { return n == 0 ? 0 : next() % n; }
+    constexpr auto small() -> int { return static_cast<int>(below(19)) - 9; }
+};
+struct Hash {
+    u64 h{1469598103934665603ULL};
+    template <typename T>
+    constexpr void add(T v)
+    {
+        h ^= static_cast<u64>(v);
+        h *= 1099511628211ULL;
+        h ^= h >> 29U;
+    }
+};
+
+constexpr auto static_vector(u64 seed) -> u64
+{
+    using V = etl::static_vector<int, 4>;
+    Rng r{seed};
+    Hash h;
+    V v;
+    V w;
+    auto snap = [&] {
+        h.add(v.size());
+        for (auto x : v) { h.add(x); }
+    };
+    for (int step = 0; step < 14; ++step) {
+        auto const op = r.below(13);
+        auto const x  = r.small();
+        switch (op) {
+        case 0:
+        case 1:
+            if (!v.full()) { v.push_back(x); }
+            break;
+        case 2:
+            if (!v.empty()) { v.pop_back(); }
+            break;
+        case 3:
+            if (!v.full()) { h.add(*v.insert(v.begin() + static_cast<long>(r.below(v.size() + 1)), x)); }
+            break;
+        case 4:
+            if (!v.empty()) { h.add(v.erase(v.begin() + static_cast<long>(r.below(v.size()))) - v.begin()); }
+            break;
+        case 5: {
+            auto const a = r.below(v.size() + 1);
+            auto const b = a + r.below(v.size() - a + 1);
+            h.add(v.erase(v.begin() + static_cast<long>(a), v.begin() + static_cast<long>(b)) - v.begin());
+            break;
+        }
+        case 6: v.resize(r.below(5)); break;
+        case 7: v.resize(r.below(5), x); break;
+        case 8: v.assign(r.below(5), x); break;
+        case 9: {
+            auto const n = r.below(v.capacity() - v.size() + 1);
+            v.insert(v.begin() + static_cast<long>(r.below(v.size() + 1)), n, x);
+            break;
+        }
+        case 10:
+            w = v;
+            if (!w.full()) { w.emplace_back(x); }
+            v.swap(w);
+            h.add(w.size());
+            break;
+        case 11: {
+            V c{v};
+            h.add(c == v);
+            h.add(c < w);
+            if (!c.empty()) { h.add(c.front() + c.back() + c[c.size() / 2]); }
+            break;
+        }
+        default: v.clear(); break;
+        }
+        snap();
+    }
+    return h.h;
+}
+
+constexpr auto inplace_string(u64 seed) -> u64
+{
+    using S = etl::inplace_string<12>;
+    constexpr char alpha[] = {'a', 'b', 'c', static_cast<char>(0xe9)};
+    Rng r{seed};
+    Hash h;
+    S s;
+    auto ch   = [&] { return alpha[r.below(4)]; };
+    auto snap = [&] {
+        h.add(s.size());
+        for (auto c : s) { h.add(static_cast<unsigned char>(c)); }
+        h.add(static_cast<unsigned char>(s.data()[s.size()])); // the terminator
+    };
+    for (int step = 0; step < 14; ++step) {
+        auto const op = r.below(13);
+        switch (op) {
+        case 0:
+        case 1:
+            if (!s.full()) { s.push_back(ch()); }
+            break;
+        case 2:
+            if (!s.empty()) { s.pop_back(); }
+            break;
+        case 3: s.append(r.below(s.capacity() - s.size() + 1), ch()); break;
+        case 4: {
+            char buf[4] = {ch(), ch(), ch(), '\0'};
+            buf[r.below(4)] = '\0';
+            if (s.size() + 3 <= s.capacity()) { s.append(buf); }
+            break;
+        }
+        case 5: s.insert(r.below(s.size() + 1), r.below(s.capacity() - s.size() + 1), ch()); break;
+        case 6:
+            if (!s.empty()) {
+                auto const i = r.below(s.size());
+                s.erase(i, r.below(s.size() - i) + 1);
+            }
+            break;
+        case 7: h.add(s.find(ch(), r.below(s.size() + 1))); break;
+        case 8: {
+            S t{r.below(3) + 1, ch()};
+            h.add(s.find(t));
+            h.add(s.compare(t) < 0);
+            h.add(s.compare(t) > 0);
+            h.add(s.starts_with(t));
+            h.add(s.ends_with(t));
+            h.add(s.contains(ch()));
+            h.add(s == t);
+            h.add(s < t);
+            break;
+        }
+        case 9: {
+            auto const pos = r.below(s.size() + 1);
+            auto const t   = s.substr(pos, r.below(6));
+            h.add(t.size());
+            for (auto c : t) { h.add(static_cast<unsigned char>(c)); }
+            break;
+        }
+        case 10: h.add(s.find_first_of(ch())); h.add(s.find_first_not_of(ch())); break;
+        case 11: s.assign(r.below(s.capacity() + 1), ch()); break;
+        default: s.clear(); break;
+        }
+        snap();
+    }
+    return h.h;
+}
+
+constexpr auto string_view(u64 seed) -> u64
+{
+    constexpr char alpha[] = {'a', 'b', static_cast<char>(0xe9)};
+    Rng r{seed};
+    Hash h;
+    char text[12]{};
+    char need[3]{};
+    auto const tn = r.below(13);
+    auto const nn = r.below(4);
+    for (std::size_t i = 0; i < tn; ++i) { text[i] = alpha[r.below(3)]; }
+    for (std::size_t i = 0; i < nn; ++i) { need[i] = alpha[r.below(3)]; }
+    etl::string_view const t{text, tn};
+    etl::string_view const n{need, nn};
+    auto const pos = r.below(tn + 2);
+    h.add(t.find(n));
+    h.add(t.find(n, pos));
+    h.add(t.rfind(n));
+    h.add(t.rfind(n, pos));
+    h.add(t.find(alpha[r.below(3)], pos));
+    h.add(t.rfind(alpha[r.below(3)], pos));
+    h.add(t.find_first_of(n, pos));
+    h.add(t.find_last_of(n));
+    h.add(t.find_last_of(n, pos));
+    h.add(t.find_first_not_of(n, pos));
+    h.add(t.find_last_not_of(n));
+    h.add(t.find_last_not_of(n, pos));
+    h.add(t.compare(n) < 0);
+    h.add(t.compare(n) > 0);
+    h.add(t.starts_with(n));
+    h.add(t.ends_with(n));
+    h.add(t.contains(n));
+    h.add(t == n);
+    h.add(t < n);
+    if (pos <= tn) {
+        auto const sub = t.substr(pos, r.below(5));
+        h.add(sub.size());
+        for (auto c : sub) { h.add(static_cast<unsigned char>(c)); }
+        auto u = t;
+        u.remove_prefix(pos);
+        h.add(u.size());
+        auto w = t;
+        w.remove_suffix(pos);
+        h.add(w.size());
+        if (!w.empty()) { h.add(static_cast<unsigned char>(w.front()) + static_cast<unsigned char>(w.back())); }
+    }
+    return h.h;
+}
+
+template <typename Int>
+constexpr void charconv_one(Rng& r, Hash& h)
+{
+    // value: boundary or random bit length; base 2..36; buffer generous, exact fit or one short
+    using U       = std::make_unsigned_t<Int>;
+    auto const k  = r.below(8);
+    auto const bl = r.below(sizeof(Int) * 8) + 1;
+    U u           = static_cast<U>(r.next() >> (64U - bl));
+    if (k == 0) { u = 0; }
+    if (k == 1) { u = static_cast<U>(std::numeric_limits<Int>::max()); }
+    if (k == 2) { u = static_cast<U>(std::numeric_limits<Int>::min()); }
+    if (k == 3) { u = static_cast<U>(-1); }
+    auto const val  = static_cast<Int>(u);
+    auto const base = static_cast<int>(r.below(35)) + 2;
+    char buf[72]{};
+    auto const res = etl::to_chars(buf, buf + sizeof(buf), val, base);
+    h.add(static_cast<int>(res.ec));
+    auto const len = static_cast<std::size_t>(res.ptr - buf);
+    h.add(len);
+    for (std::size_t i = 0; i < len; ++i) { h.add(static_cast<unsigned char>(buf[i])); }
+    Int back{};
+    auto const fr = etl::from_chars(buf, buf + len, back, base);
+    h.add(static_cast<int>(fr.ec));
+    h.add(fr.ptr - buf);
+    h.add(static_cast<U>(back));
+    // short buffers: only the error code and, on success, the characters are specified
+    auto const cut = r.below(2);
+    if (len > cut) {
+        char small[72]{};
+        auto const rs = etl::to_chars(small, small + (len - cut), val, base);
+        h.add(static_cast<int>(rs.ec));
+        if (rs.ec == etl::errc{}) {
+            h.add(rs.ptr - small);
+            for (auto const* q = small; q != rs.ptr; ++q) { h.add(static_cast<unsigned char>(*q)); }
+        }
+    }
+}
+constexpr auto charconv(u64 seed) -> u64
+{
+    Rng r{seed};
+    Hash h;
+    charconv_one<int>(r, h);
+    charconv_one<unsigned>(r, h);
+    charconv_one<long long>(r, h);
+    charconv_one<unsigned long long>(r, h);
+    charconv_one<signed char>(r, h);
+    charconv_one<unsigned short>(r, h);
+    return h.h;
+}
+
+constexpr auto algorithm(u64 seed) -> u64
+{
+    Rng r{seed};
+    Hash h;
+    etl::array<int, 8> a{};
+    auto const n = r.below(9);
+    for (std::size_t i = 0; i < n; ++i) { a[i] = r.small() / 2; }
+    auto* const f = a.data();
+    auto* const l = a.data() + n;
+    auto all      = [&](auto* first, auto* last) {
+        for (auto* q = first; q != last; ++q) { h.add(*q); }
+    };
+    auto const v = r.small() / 2;
+    h.add(etl::count(f, l, v));
+    h.add(etl::find(f, l, v) - f);
+    h.add(etl::min_element(f, l) - f);
+    h.add(etl::max_element(f, l) - f);
+    h.add(etl::accumulate(f, l, 0));
+    h.add(etl::is_sorted(f, l));
+    h.add(etl::adjacent_find(f, l) - f);
+    {
+        auto b = a;
+        etl::reverse(b.data(), b.data() + n);
+        all(b.data(), b.data() + n);
+        auto const mid = r.below(n + 1);
+        h.add(etl::rotate(b.data(), b.data() + mid, b.data() + n) - b.data());
+        all(b.data(), b.data() + n);
+    }
+    {
+        auto b = a;
+        auto* e = etl::remove(b.data(), b.data() + n, v);
+        h.add(e - b.data());
+        all(b.data(), e);
+    }
+    {
+        auto b = a;
+        auto* m = etl::partition(b.data(), b.data() + n, [](int x) { return x < 0; });
+        h.add(m - b.data());
+        h.add(etl::is_partitioned(b.data(), b.data() + n, [](int x) { return x < 0; }));
+    }
+    {
+        auto b = a;
+        if (n != 0) {
+            auto const k = r.below(n);
+            etl::nth_element(b.data(), b.data() + k, b.data() + n);
+            h.add(b[k]);
+        }
+        auto c = a;
+        etl::partial_sort(c.data(), c.data() + r.below(n + 1), c.data() + n);
+        auto d = a;
+        etl::stable_sort(d.data(), d.data() + n, [](int x, int y) { return (x / 2) < (y / 2); });
+        all(d.data(), d.data() + n);
+    }
+    etl::sort(f, l);
+    all(f, l);
+    h.add(etl::is_sorted(f, l));
+    h.add(etl::lower_bound(f, l, v) - f);
+    h.add(etl::upper_bound(f, l, v) - f);
+    h.add(etl::binary_search(f, l, v));
+    auto const er = etl::equal_range(f, l, v);
+    h.add(er.first - f);
+    h.add(er.second - f);
+    auto* u = etl::unique(f, l);
+    h.add(u - f);
+    all(f, u);
+    return h.h;
+}
+
+constexpr auto chrono(u64 seed) -> u64
+{
+    namespace ec = etl::chrono;
+    Rng r{seed};
+    Hash h;
+    auto const z   = static_cast<int>(r.below(2 * 1100000)) - 1100000; // days around the epoch, about +-3000 years
+    auto const sd  = ec::sys_days{ec::days{z}};
+    auto const ymd = ec::year_month_day{sd};
+    h.add(int{ymd.year()});
+    h.add(unsigned{ymd.month()});
+    h.add(unsigned{ymd.day()});
+    h.add(ymd.ok());
+    h.add(ec::sys_days{ymd}.time_since_epoch().count());
+    h.add(ec::weekday{sd}.c_encoding());
+    auto const dm = static_cast<int>(r.below(81)) - 40;
+    auto const ym = ec::year_month{ymd.year(), ymd.month()} + ec::months{dm};
+    h.add(int{ym.year()});
+    h.add(unsigned{ym.month()});
+    auto const wd = ec::weekday{static_cast<unsigned>(r.below(7))} + ec::days{static_cast<int>(r.below(41)) - 20};
+    h.add(wd.c_encoding());
+    auto const last = ec::year_month_day_last{ymd.year(), ec::month_day_last{ymd.month()}};
+    h.add(unsigned{last.day()});
+    h.add(ymd.year().is_leap());
+    // durations: count in ms, the rounding casts to seconds / minutes (exactly specified, ties to even for round)
+    auto const ms = ec::milliseconds{static_cast<long long>(r.below(2000001)) - 1000000 + (r.below(4) == 0 ? 500 - static_cast<long long>(r.below(2000001) % 1000) : 0)};
+    h.add(ec::duration_cast<ec::seconds>(ms).count());
+    h.add(ec::floor<ec::seconds>(ms).count());
+    h.add(ec::ceil<ec::seconds>(ms).count());
+    h.add(ec::round<ec::seconds>(ms).count());
+    h.add(ec::floor<ec::minutes>(ms).count());
+    h.add(ec::abs(ms).count());
+    h.add((ms + ec::seconds{3}).count());
+    h.add((ms % ec::seconds{7}).count());
+    h.add(ms < ec::seconds{1});
+    return h.h;
+}
+
+constexpr auto array_bitset(u64 seed) -> u64
+{
+    Rng r{seed};
+    Hash h;
+    etl::bitset<20> b{r.next()};
+    etl::bitset<20> c{r.next()};
+    for (int step = 0; step < 10; ++step) {
+        auto const op  = r.below(10);
+        auto const pos = r.below(20);
+        switch (op) {
+        case 0: b.set(pos); break;
+        case 1: b.reset(pos); break;
+        case 2: b.flip(pos); break;
+        case 3: b.set(pos, r.below(2) != 0); break;
+        case 4: b <<= pos; break;
+        case 5: b >>= pos; break;
+        case 6: b &= c; break;
+        case 7: b |= c; break;
+        case 8: b ^= c; break;
+        default: b.flip(); break;
+        }
+        h.add(b.count());
+        h.add(b.any());
+        h.add(b.all());
+        h.add(b.none());
+        h.add(b.test(pos));
+        h.add(b[19 - pos]);
+        h.add(b == c);
+        h.add(b.to_ullong());
+    }
+    return h.h;
+}
+} // namespace scen
+    #define C13_SCEN(F) C13_FN1(scen_##F, "scenario." #F, "scenario", Seed, true, kNoTag, scen::F(x))
+C13_SCEN(static_vector)
+C13_SCEN(inplace_string)
+C13_SCEN(string_view)
+C13_SCEN(charconv)
+C13_SCEN(algorithm)
+C13_SCEN(chrono)
+C13_SCEN(array_bitset)
+    #define C13_HAVE_PART 1
 #endif
 
 } // namespace c13
